@@ -53,7 +53,7 @@ func (node *tagIncludeNode) Execute(ctx *ExecutionContext, writer TemplateWriter
 		includedTpl, err2 := ctx.template.set.fromFileRelative(ctx.template, filename.String())
 		if err2 != nil {
 			// if this is ReadFile error, and "if_exists" flag is enabled
-			if node.ifExists && err2.(*Error).Sender == "fromfile" {
+			if node.ifExists && ctx.template.set.isMissing(err2.(*Error), ctx.template, filename.String()) {
 				return nil
 			}
 			return err2.(*Error)
@@ -97,7 +97,7 @@ func tagIncludeParser(doc *Parser, start *Token, arguments *Parser) (INodeTag, *
 		includedTpl, err := doc.template.set.fromFileRelative(doc.template, filenameToken.Val)
 		if err != nil {
 			// if this is ReadFile error, and "if_exists" token presents we should create and empty node
-			if err.(*Error).Sender == "fromfile" && ifExists {
+			if ifExists && doc.template.set.isMissing(err.(*Error), doc.template, filenameToken.Val) {
 				return &tagIncludeEmptyNode{}, nil
 			}
 			return nil, err.(*Error).updateFromTokenIfNeeded(doc.template, filenameToken)
